@@ -2,6 +2,7 @@ package c12gw
 
 import (
 	"testing"
+	"time"
 
 	"replay/gwtest"
 )
@@ -28,5 +29,24 @@ func TestUnimplementedChunkEncodingIsRefusedNotStoredEncoded(t *testing.T) {
 				g.Delete(g.RootC, "/bkt/obj", nil)
 			}
 		}
+	}
+}
+
+// A presigned upload that declares a streaming (chunk-encoded) payload: the presigned path installs no decoder, so the
+// request must be refused; it was acknowledged and the chunk framing and trailer were stored as object data.
+func TestPresignedUploadWithAStreamingPayloadTypeIsNotStoredEncoded(t *testing.T) {
+	g := gwtest.Start(t, gwtest.Options{})
+	g.MustStatus(g.Put(g.RootC, "/bkt", nil, nil), 200, "create bucket")
+	body := []byte("5\r\nhello\r\n0\r\nx-amz-checksum-crc32:AAAAAA==\r\n\r\n") // the trailer value is not the checksum of "hello"
+	hdr := map[string]string{"X-Amz-Content-Sha256": "STREAMING-UNSIGNED-PAYLOAD-TRAILER", "Content-Encoding": "aws-chunked"}
+	u := g.PresignHdr(g.RootC, "PUT", "/bkt/obj", 300, time.Now().UTC(), hdr)
+	r := g.Do(gwtest.Req{Method: "PUT", Target: u, NoAuth: true, Body: body, Header: hdr})
+	if r.Err != nil {
+		t.Fatalf("no answer: %v", r.Err)
+	}
+	h := g.Get(g.RootC, "/bkt/obj", nil)
+	t.Logf("PUT: %d %s", r.Status, r.Body)
+	if r.Status/100 == 2 || h.Status == 200 {
+		t.Errorf("PUT answered %d; GET afterwards %d with %d bytes %q", r.Status, h.Status, len(h.Body), h.Body)
 	}
 }
